@@ -38,3 +38,97 @@ Example C03_boundary :
 Proof.
   split; [repeat constructor; cbn; lia|]. split; vm_compute; reflexivity.
 Qed.
+
+(* ====================================================================================
+   The full pipeline model (linear and circular records): C03/Model.v function ids 2-5
+   ==================================================================================== *)
+
+(* the per-cutoff cache of apply_cluster_rules (info_by_range, with the circular_origin flag stored
+   in it) is transparent: the anchoring genes of every rule are those obtained when every rule is
+   evaluated on freshly computed neighbourhood information, whatever the rule order and cutoffs *)
+Theorem C03_cache_transparent : forall N circular gs hs rules,
+  apply_cluster_rules N circular gs hs rules true = apply_cluster_rules N circular gs hs rules false.
+Proof. exact cache_transparent. Qed.
+Print Assumptions C03_cache_transparent.
+
+(* SUPERIORS (any topology; guard: the core-gene lookup of every cluster succeeds): a cluster is
+   dropped iff some cluster of one of its rule's superiors either contains its core or overlaps it
+   in gene order (its last core gene is not before this cluster's first core gene and its first
+   core gene not after this cluster's last one) - and not otherwise *)
+Theorem C03_superiors_partial : forall gs rules all p b,
+  (forall q, In q all -> exists fl, first_last gs (p_core q) = Ok fl) ->
+  is_redundant gs rules all p = Ok b ->
+  exists first last, first_last gs (p_core p) = Ok (first, last) /\
+  (b = true <->
+   exists s o, In s (r_sup (nth_rule rules (p_rule p))) /\ In o all /\ p_rule o = s /\
+               sup_overlaps gs (p_core p) first last (p_core o) = true).
+Proof. exact is_redundant_spec. Qed.
+Print Assumptions C03_superiors_partial.
+
+(* the property's wording "dropped when a superior's cluster COVERS its core genes, and not
+   otherwise" is false of the code: a cluster is dropped although no superior core contains its
+   core (finding class superior_partial_overlap) *)
+Theorem C03_superiors_cover_refuted : exists gs rules all p,
+  In p all /\ is_redundant gs rules all p = Ok true /\
+  forall o, In o all -> In (p_rule o) (r_sup (nth_rule rules (p_rule p))) -> contains (p_core o) (p_core p) = false.
+Proof.
+  exists [(0, [mkPart 50 950 (-1)]); (1, [mkPart 6950 7250 1]); (2, [mkPart 7250 10250 (-1)])].
+  exists [mkRule 2000 3000 (C01.Model.Single false 3) None []; mkRule 1000 0 (C01.Model.Single false 2) None [0]].
+  exists [(0, [mkPart 7250 10250 (-1)], [mkPart 4250 10251 1]); (1, [mkPart 6950 10250 2], [mkPart 6950 10250 1])].
+  exists (1, [mkPart 6950 10250 2], [mkPart 6950 10250 1]).
+  split; [right; left; reflexivity|]. split; [vm_compute; reflexivity|].
+  intros o [<-|[<-|[]]] Hs; vm_compute in Hs |- *; [reflexivity|]. destruct Hs as [Hs|[]]. discriminate Hs.
+Qed.
+Print Assumptions C03_superiors_cover_refuted.
+
+(* EXTENDERS (any topology): every gene mark_extendable yields lies outside the old core and
+   satisfies the rule's extender condition *)
+Theorem C03_extenders_sound : forall N circular hs r core0 walk prev g,
+  In g (mark N circular hs r core0 prev walk) ->
+  In g walk /\ outside core0 g = true /\ can_extend hs r g = true.
+Proof. exact mark_sound. Qed.
+Print Assumptions C03_extenders_sound.
+
+(* ... a run of genes that are each inside the old core or satisfy the extender condition within
+   the cutoff (<=) of the previously accepted gene is accepted as a whole, the walk continuing
+   behind it from its last accepted gene ... *)
+Theorem C03_extenders_run : forall N circular hs r core0 pre prev post,
+  run_ok N circular hs r core0 prev pre ->
+  mark N circular hs r core0 prev (pre ++ post) =
+  filter (outside core0) pre ++ mark N circular hs r core0 (last_loc core0 prev pre) post.
+Proof. exact mark_run. Qed.
+Print Assumptions C03_extenders_run.
+
+(* ... and the walk ends at the first gene outside the core that is farther than the cutoff from
+   the last accepted gene: together, the genes joined to the core are the maximal run *)
+Theorem C03_extenders_stop : forall N circular hs r core0 skip g rest prev,
+  forallb (fun x => negb (outside core0 x)) skip = true -> outside core0 g = true ->
+  r_cut r < dist (snd g) prev (wrap_of N circular) ->
+  mark N circular hs r core0 prev (skip ++ g :: rest) = [].
+Proof. exact mark_stop. Qed.
+Print Assumptions C03_extenders_stop.
+
+(* a rule without EXTENDERS never extends *)
+Theorem C03_no_extenders : forall N circular hs r core0 prev walk,
+  r_ext r = None -> mark N circular hs r core0 prev walk = [].
+Proof. exact extenders_none. Qed.
+Print Assumptions C03_no_extenders.
+
+(* non-vacuity / the ring neighbourhood on concrete records (NOT a theorem: the wrapped extent
+   is covered by the correspondence run): wrap below 0, wrap above N, the (N-len)//2+1 cap with the
+   force_cross_origin midpoint split *)
+Example C03_ring_neighbourhood_examples :
+  extend_area [mkPart 100 400 1] 1000 10000 true true = Ok [mkPart 9100 10000 1; mkPart 0 1400 1] /\
+  extend_area [mkPart 9500 9900 (-1)] 1000 10000 true true = Ok [mkPart 8500 10000 1; mkPart 0 900 1] /\
+  extend_area [mkPart 4000 5000 1] 1000 10000 true true = Ok [mkPart 3000 6000 1] /\
+  extend_area [mkPart 9000 10000 1; mkPart 0 1000 1] 9000 10000 true true = Ok [mkPart 5000 10000 1; mkPart 0 4999 1].
+Proof. repeat split; vm_compute; reflexivity. Qed.
+
+(* non-vacuity of the extender theorems: a run of two extender genes next to a core *)
+Example C03_extenders_example :
+  let hs := [(1, [(7, 0)]); (2, [(7, 0)]); (3, [(7, 0)])] in
+  let r := mkRule 1000 0 (C01.Model.Single false 1) (Some (C01.Model.Single false 7)) [] in
+  let walk := [(1, [mkPart 1500 1600 1]); (2, [mkPart 2600 2700 1]); (3, [mkPart 3701 3800 1])] in
+  run_ok 9000 false hs r [mkPart 100 1000 1] [mkPart 100 1000 1] (firstn 2 walk) /\
+  mark 9000 false hs r [mkPart 100 1000 1] [mkPart 100 1000 1] walk = firstn 2 walk.
+Proof. split; [cbn; repeat split; vm_compute; discriminate|vm_compute; reflexivity]. Qed.
